@@ -973,13 +973,13 @@ def site_rewrite(ctx, sf, it, rule, anchor, nth, ropts, what):
         # opaque statement: replace anchor..(through `;`) by a call to an external_body stub
         k = b
         end = e
-        if ropts.get("to_semicolon", True):
+        if ropts.get("to_semicolon", True) not in ("", "0", False):
             depth_k = b
             while toks[depth_k].text != ";":
                 depth_k = pair[depth_k] + 1 if toks[depth_k].text in ("(", "[", "{") else depth_k + 1
             end = toks[depth_k].end
         call = ropts["call"].replace("~", " ")
-        edits.append(Edit(s, end, call + ";"))
+        edits.append(Edit(s, end, call + (";" if end != e else "")))
         ctx.fire("O1", sf, s, f"opaque statement -> {call}")
     elif rule == "N12":
         frm, to = ropts["from"], ropts["to"]
@@ -1133,6 +1133,14 @@ def build_item(ctx, unit, spec):
                 k += 1
             if not done:
                 raise LostAnchor(f"{spec.path}: field {fname} not found")
+    if it.kind in ("const", "static"):
+        # N13: the elided lifetime of a reference type in a const/static item is 'static by definition
+        k = it.tok_lo
+        while k < it.tok_hi and toks[k].text != "=":
+            if toks[k].text == "&" and toks[k + 1].kind != "life":
+                edits.append(Edit(toks[k].end, toks[k].end, "'static "))
+                ctx.fire("N13", sf, toks[k].start, "&T -> &'static T in const item")
+            k += 1
     if spec.opts.get("elide_init") and it.kind in ("const", "static"):
         # T4: the initializer of an external_body table is not read by Verus at all; eliding it only saves
         # translation time. Entry facts about the table are assumed in the unit and discharged by Kani on the
